@@ -30,7 +30,12 @@ fn static_eval_rq_operator(mut expr: Expr) -> Expr {
             }
         }
         "std.neg" => match &args[0].kind {
-            ExprKind::Literal(Literal::Integer(val)) => return Expr::new(Literal::Integer(-val)),
+            ExprKind::Literal(Literal::Integer(val)) => {
+                // i64::MIN has no negation: leave the expression unevaluated
+                if let Some(neg) = val.checked_neg() {
+                    return Expr::new(Literal::Integer(neg));
+                }
+            }
             ExprKind::Literal(Literal::Float(val)) => return Expr::new(Literal::Float(-val)),
             _ => (),
         },
